@@ -29,6 +29,14 @@ CHECKS = {
          "All pairs of ~450 (quick) / ~2200 (thorough) bases (with/without/empty authority; empty, absolute, rootless paths with dot, empty and colon segments; with/without query) and 3.5-25 k references covering every branch of RFC 5.2.2 (own scheme, own authority, empty path, absolute path, relative path) with any mixture of '.', '..', empty and ordinary segments, queries and fragments: 2.3 M pairs quick, 54 M thorough, both families; resolved / resolve / into_resolved must agree; exact text equality with the RFC target when it re-parses to the same components; validity + RFC scheme/authority/query/fragment + unambiguous rendering of the RFC path otherwise; base unchanged.",
          "Trusted: the resolution model (model/resolve.rs, 120 lines), checked on every run against the 42 examples of RFC 3986 5.4.1/5.4.2 typed in from the RFC. Leniencies: ambiguous targets and relative targets starting with an empty segment are judged up to shielding/collapsing of leading empty segments (pinned by the repository's own test `../..//` -> `http:/`).",
          "DESIGN.md section 6, C06"),
+ "C07": ("exhaustive sweep over all ordered pairs of per-type spelling domains against equality of a canonical form (RFC decomposition + dot-segment normalisation + percent-decoding to octets)",
+         "For each of the 20 validated types a domain in which every abstract value has several spellings (A/%41, e-acute/%C3%A9/%c3%a9, a/b vs a/./b vs a/x/../b, 80/080, s/S, [::1]/[::01], empty vs absent, and ill-formed octets: %FF, overlong %C1%81, truncated %C3, surrogate %ED%A0%80); ALL ordered pairs (14 M quick), borrowed and owned, == and !=, plus the 26 provided cross-type impls between Ri/RiRef/RiBuf/RiRefBuf; == must return, without panicking, exactly equality of the canonical form (hence reflexive, symmetric, transitive).",
+         "Trusted: the canonical-form model (model/equiv.rs, 100 lines). The domains are finite spelling sets; text outside them is represented by class.",
+         "DESIGN.md section 6, C07"),
+ "C08": ("exhaustive sweep over all ordered pairs (and all triples of a class-complete sub-domain) of the C07 spelling domains for Eq/Ord/Hash coherence, plus Borrow-contract and collection-lookup checks per value",
+         "On all ordered pairs of the C07 domains: equal values hash identically (fixed-key FNV hasher and DefaultHasher), cmp == Equal exactly when ==, partial_cmp == Some(cmp), antisymmetry, symmetry of ==, owned results identical to borrowed, cross-type partial_cmp identical; transitivity of cmp on all triples of a sub-domain holding two members of every class; for every URI/IRI: hash equality through every Borrow view (RiBuf->Ri->RiRef, Uri->Iri/IriRef) and insert-then-lookup in HashSet/BTreeSet through each view.",
+         "Trusted: std's Hash/Ord contracts as the oracle; no particular order is demanded, only coherence.",
+         "DESIGN.md section 6, C08"),
  "C09": ("exhaustive input-space sweep of all paths up to a segment bound (+ inline-buffer threshold paths), stand-alone and embedded in every kind of reference, against a stack-walk model cross-checked with a literal RFC 3986 5.2.4 transcription",
          "Every path over the structural segment alphabet up to 6 (quick) / 8 (thorough) segments and over the full alphabet up to 4/5, plus paths of 15..40 segments and 510..2000 bytes; for each: the normalized-segment iterator (both directions, length), the normalized copy (RFC rendering incl. trailing slash, idempotence), in-place normalisation stand-alone, and embedded in 12 reference contexts with frame check (scheme, authority, query, fragment unchanged, text valid). Exhaustive inside the bound.",
          "Trusted: the stack-walk model (30 lines) and its agreement with the literal 5.2.4 algorithm on absolute paths (checked on 5460 paths by selftest); rendering rules of DESIGN 5.3 (legal '.' shield, [\"\"] identified with the empty list unless shielded).",
